@@ -33,7 +33,7 @@ WEIGHTS = {"ctrl": 0.8, "undo": 3, "redo": 3, "paint": 5, "swap": 2.5}
 
 def plan(tier, seed):
     # + the repository's own test-suite, unedited, as one more workload under the same monitor
-    return common.session_plan(PROP, tier, seed, quick=6000, thorough=60000) + [common.pytest_spec()]
+    return [common.pytest_spec()] + common.session_plan(PROP, tier, seed, quick=6000, thorough=60000)
 
 
 def run_shard(spec):
